@@ -146,12 +146,19 @@ def run(tier):
     s.add_file("/ztail", b"\0" * 100)
     s.add_file("/zblock_ztail", b"\0" * (4096 + 50))
     s.add_file("/data_ztail", bytes(range(256)) * 16 + b"\0" * 70)
+    # tails that duplicate a tail whose fragment block is already on disk: the candidate is read back from the output file
+    for i in range(14):
+        s.add_file("/t_%02d" % i, gen.content(rng, "random", 900 + i))
+    s.add_file("/t_dup_mid", s.files["t_07"])            # candidate in a later fragment block (the block cache starts out as "block 0")
+    s.add_file("/t_dup_first", s.files["t_00"])
+    s.add_file("/t_dup_second", s.files["t_01"])
+    s.add_file("/t_dup_mid2", s.files["t_11"])
     tarb = gen.standard_tars(rng)[0][1]
     img = work + "/ref.sqfs"
     rc, o, e = sh([tools + "/gensquashfs", "-q", "-f", "-c", "gzip", "-b", "4096", "-F", scen[1].packfile(), img], timeout=60)
     if rc:
         raise RuntimeError("cannot build reference image")
-    cases = [Case("gensquashfs", "gensquashfs", ["-q", "-f", "-c", "gzip", "-b", "4096", "-j", "2", "-F", s.packfile(), s.dir + "/o_@.sqfs"], s.dir, True, out=s.dir + "/o_@.sqfs"),
+    cases = [Case("gensquashfs", "gensquashfs", ["-q", "-f", "-c", "gzip", "-b", "4096", "-j", "2", "-Q", "3", "-F", s.packfile(), s.dir + "/o_@.sqfs"], s.dir, True, out=s.dir + "/o_@.sqfs"),
              Case("tar2sqfs", "tar2sqfs", ["-q", "-f", "-c", "zstd", "-b", "4096", work + "/t_@.sqfs"], work, True, stdin=tarb, out=work + "/t_@.sqfs"),
              Case("sqfs2tar", "sqfs2tar", [img], work, False, stdout_is_output=True),
              Case("rdsquashfs-cat", "rdsquashfs", ["-c", "big", img], work, False, stdout_is_output=True),
